@@ -5,6 +5,8 @@ language of coq/model/Lifecycle.v (fail-closed: any statement outside the vocabu
  * which protocol attributes the two Telnet transports' open() puts back to their __init__ value (ast)
  * the default on_close hooks of the five core platforms, sync and asyncio (ast), and whether the
    driver classes install them by default (import)
+ * PtyProcess.close() as a program of the pty statement language (pstmt) and the parent part of
+   PtyProcess.spawn() after pty.fork() as a list of satom  (ast)
 Logging statements (self.logger.*, _pre/_post_open_closing_log) and docstrings are dropped."""
 import ast
 import os
@@ -184,6 +186,146 @@ def _hook(path, fname):
     return "[" + "; ".join(calls) + "]"
 
 
+# ---- scrapli/transport/plugins/system/ptyprocess.py ----
+PTY = "scrapli/transport/plugins/system/ptyprocess.py"
+
+
+def _pcond(test, where):
+    neg = False
+    if isinstance(test, ast.UnaryOp) and isinstance(test.op, ast.Not):
+        neg, test = True, test.operand
+    p = _attr_path(test)
+    if p == ["self", "closed"] and neg:
+        return "PNotClosed"
+    if p == ["self", "flag_eof"]:
+        return "PNotEofSeen" if neg else "PEofSeen"
+    c = _call(test)
+    if c and not c[1].args and not c[1].keywords:
+        if c[0] == ["self", "isalive"] and not neg:
+            return "PIsAlive"
+        if c[0] == ["self", "eof"]:
+            return "PNotEofSeen" if neg else "PEofSeen"
+    raise Unknown("%s: condition %s" % (where, ast.dump(test)[:160]))
+
+
+def _is_const(node, value):
+    if isinstance(node, ast.UnaryOp) and isinstance(node.op, ast.USub) and isinstance(node.operand, ast.Constant):
+        return type(value) is int and -node.operand.value == value
+    return isinstance(node, ast.Constant) and type(node.value) is type(value) and node.value == value
+
+
+def _pstmt(node, where):
+    if isinstance(node, ast.Expr):
+        if isinstance(node.value, ast.Constant) and isinstance(node.value.value, str):
+            return None
+        c = _call(node.value)
+        if c and c[0] == ["time", "sleep"]:
+            return "PNop"
+        raise Unknown("%s: expression statement %s" % (where, ast.dump(node)[:120]))
+    if isinstance(node, ast.With):
+        # with suppress(AttributeError): del self.fileobj
+        if len(node.items) == 1 and node.items[0].optional_vars is None and len(node.body) == 1 and isinstance(node.body[0], ast.Delete):
+            ctx = _call(node.items[0].context_expr)
+            tg = node.body[0].targets
+            if ctx and ctx[0] == ["suppress"] and [getattr(a, "id", None) for a in ctx[1].args] == ["AttributeError"] \
+                    and len(tg) == 1 and _attr_path(tg[0]) == ["self", "fileobj"]:
+                return "PDelFileobj"
+        raise Unknown("%s: with statement" % where)
+    if isinstance(node, ast.Assign) and len(node.targets) == 1:
+        p = _attr_path(node.targets[0])
+        if p == ["self", "closed"] and _is_const(node.value, True):
+            return "PMarkClosed"
+        if p == ["self", "fd"] and _is_const(node.value, -1):
+            return "PNop"
+        if p == ["self", "pid"] and _is_const(node.value, None):
+            return "PNop"
+        raise Unknown("%s: assignment %s" % (where, ast.dump(node)[:120]))
+    if isinstance(node, ast.If) and not node.orelse:
+        # if not self.terminate(force=True): raise PtyProcessError(...)
+        t = node.test
+        if isinstance(t, ast.UnaryOp) and isinstance(t.op, ast.Not):
+            c = _call(t.operand)
+            if c and c[0] == ["self", "terminate"] and not c[1].args and len(c[1].keywords) == 1 and c[1].keywords[0].arg == "force" \
+                    and _is_const(c[1].keywords[0].value, True) and len(node.body) == 1 and isinstance(node.body[0], ast.Raise):
+                return "PTerminateOrRaise"
+        return "PIf %s (%s)" % (_pcond(node.test, where), _pblock(node.body, where))
+    raise Unknown("%s: statement %s" % (where, type(node).__name__))
+
+
+def _pblock(nodes, where):
+    terms = [t for t in (_pstmt(n, where) for n in nodes) if t is not None]
+    if not terms:
+        return "PSkip"
+    out = terms[-1]
+    for t in reversed(terms[:-1]):
+        out = "PSeq (%s) (%s)" % (t, out)
+    return out
+
+
+def _pty_close(repo):
+    ms, _ = _methods(os.path.join(repo, PTY), "PtyProcess")
+    for name in ("close", "spawn", "isalive", "terminate", "__del__"):
+        if name not in ms:
+            raise Unknown("PtyProcess.%s missing" % name)
+    # what makes "owned by a PtyProcess object" mean "released": __del__ closes an un-closed object, and
+    # SystemTransport.close() closes its session
+    def calls(fn):
+        return [c[0] for c in (_call(n) for n in ast.walk(fn) if isinstance(n, ast.Call)) if c]
+    if ["self", "close"] not in calls(ms["__del__"]):
+        raise Unknown("PtyProcess.__del__ does not call self.close()")
+    tms, _ = _methods(os.path.join(repo, "scrapli/transport/plugins/system/transport.py"), "SystemTransport")
+    if ["self", "session", "close"] not in calls(tms["close"]):
+        raise Unknown("SystemTransport.close does not call self.session.close()")
+    return _pblock(ms["close"].body, "PtyProcess.close")
+
+
+def _pty_spawn(repo):
+    """the statements of spawn() after `pid, fd = pty.fork()` / `if pid == CHILD: ...`, i.e. what the parent runs"""
+    ms, _ = _methods(os.path.join(repo, PTY), "PtyProcess")
+    body = ms["spawn"].body
+    where = "PtyProcess.spawn"
+    ix = [i for i, n in enumerate(body) if isinstance(n, ast.Assign) and _call(n.value) and _call(n.value)[0] == ["pty", "fork"]]
+    if len(ix) != 1:
+        raise Unknown("%s: pty.fork() not found exactly once at top level" % where)
+    i = ix[0]
+    tg = body[i].targets[0]
+    if not (isinstance(tg, ast.Tuple) and [getattr(e, "id", None) for e in tg.elts] == ["pid", "fd"]):
+        raise Unknown("%s: fork target" % where)
+    nxt = body[i + 1] if i + 1 < len(body) else None
+    if not (isinstance(nxt, ast.If) and not nxt.orelse and isinstance(nxt.test, ast.Compare) and _attr_path(nxt.test.left) == ["pid"]
+            and len(nxt.test.ops) == 1 and isinstance(nxt.test.ops[0], ast.Eq) and _attr_path(nxt.test.comparators[0]) == ["CHILD"]):
+        raise Unknown("%s: the child branch does not follow the fork" % where)
+    # the child branch never falls through: it ends in execv, whose failure handler ends in os._exit
+    last = nxt.body[-1]
+    if not (isinstance(last, ast.Try) and len(last.handlers) == 1 and _call(last.handlers[0].body[-1].value if isinstance(last.handlers[0].body[-1], ast.Expr) else None)
+            and _call(last.handlers[0].body[-1].value)[0] == ["os", "_exit"]):
+        raise Unknown("%s: child branch may fall through" % where)
+    atoms = []
+    for n in body[i + 2:]:
+        if isinstance(n, ast.Expr) and isinstance(n.value, ast.Constant):
+            continue
+        if isinstance(n, ast.Assign) and len(n.targets) == 1 and _attr_path(n.targets[0]) == ["inst"]:
+            c = _call(n.value)
+            if c and c[0] == ["cls"] and [_attr_path(a) for a in c[1].args] == [["pid"], ["fd"]] and not c[1].keywords:
+                atoms.append("SWrap")
+                continue
+        c = _call(n.value) if isinstance(n, (ast.Expr, ast.Assign)) else None
+        if c and c[0] in (["os", "close"], ["os", "read"]) and c[1].args and (_attr_path(c[1].args[0]) or [""])[0].startswith("exec_err_pipe_"):
+            atoms.append("SPipe")
+            continue
+        if isinstance(n, ast.If) and any(isinstance(x, ast.Raise) for x in ast.walk(n)) and "exec_err_data" in {x.id for x in ast.walk(n.test) if isinstance(x, ast.Name)}:
+            atoms.append("SExecCheck")
+            continue
+        if isinstance(n, ast.Try) or (isinstance(n, ast.Expr) and c is not None):
+            atoms.append("SMayRaise")          # any other call / try block: may raise
+            continue
+        if isinstance(n, ast.Return) and _attr_path(n.value) == ["inst"]:
+            atoms.append("SReturn")
+            continue
+        raise Unknown("%s: parent statement %s" % (where, ast.dump(n)[:160]))
+    return "[" + "; ".join(atoms) + "]"
+
+
 def generate(outdir, repo=None):
     if repo is None:
         from harness import common
@@ -221,6 +363,10 @@ def generate(outdir, repo=None):
             installed.append(d.on_close is getattr(mod, "%s_on_close" % short))
     lines.append("Definition gen_on_close_hooks : list (list hcall) :=\n  [" + ";\n   ".join(hooks) + "].")
     lines.append("Definition gen_on_close_installed : list bool := [%s]." % "; ".join("true" if b else "false" for b in installed))
+    pc, ps = _pty_close(repo), _pty_spawn(repo)
+    lines.append("Definition gen_pty_close : pstmt := %s." % pc)
+    lines.append("Definition gen_pty_spawn : list satom := %s." % ps)
+    info["pty_close"], info["pty_spawn"] = pc, ps
     info["hooks"] = hooks[0]
     info["hooks_installed"] = installed
     text = "\n".join(lines) + "\n"
